@@ -122,13 +122,37 @@ func ruleLK1(c *Ctx) {
 		}
 	}
 	busyOK := false
+	isBusyTest := func(a Atom) bool {
+		call, _ := callOf(a.X)
+		if call == nil || calleeFullName(&call.Call) != "errors.Is" {
+			return false
+		}
+		if resolveEnv(strip(call.Call.Args[0]), a.Env) != ssa.Value(acq) && strip(resolveEnv(call.Call.Args[0], a.Env)) != ssa.Value(acq) {
+			return false
+		}
+		return strings.Contains(call.Call.Args[1].Type().String(), "error")
+	}
 	for _, bf := range branchFacts(lp) {
-		curEnv = bf.A.Env
-		if bf.A.Kind != "bool" || !bf.Holds {
+		if bf.Derived || !bf.Holds {
 			continue
 		}
-		call, _ := callOf(bf.A.X)
-		if call == nil || calleeFullName(&call.Call) != "errors.Is" || strip(call.Call.Args[0]) != ssa.Value(acq) {
+		ok := bf.A.Kind == "bool" && isBusyTest(bf.A)
+		if !ok && len(bf.Alts) > 0 {
+			// a predicate helper: every way it returns true tests errors.Is(flockErr, ...)
+			ok = true
+			for _, alt := range bf.Alts {
+				any := false
+				for _, fa := range alt {
+					if fa.Holds && fa.A.Kind == "bool" && isBusyTest(fa.A) {
+						any = true
+					}
+				}
+				if !any {
+					ok = false
+				}
+			}
+		}
+		if !ok {
 			continue
 		}
 		// the true edge must lead to a block returning the sentinel
@@ -151,15 +175,57 @@ func ruleLK1(c *Ctx) {
 	if u, ok := fdArg.(*ssa.UnOp); ok && u.Op == token.MUL {
 		fdCell = cellOf(u.X)
 	}
-	checkOpen := func(v ssa.Value) {
+	var checkOpenIn func(v ssa.Value, pathOK func(ssa.Value) bool, depth int)
+	checkOpenIn = func(v ssa.Value, pathOK func(ssa.Value) bool, depth int) {
 		call, idx := callOf(v)
-		if call == nil || idx != 0 || calleeFullName(&call.Call) != "syscall.Open" {
+		if call == nil || idx != 0 {
 			fdOK, fdWhy = false, "fd is not the result of syscall.Open"
 			return
 		}
-		if _, isParam := resolve(call.Call.Args[0]).(*ssa.Parameter); !isParam {
-			fdOK, fdWhy = false, "fd opened from something other than the path parameter"
+		if calleeFullName(&call.Call) == "syscall.Open" {
+			if !pathOK(call.Call.Args[0]) {
+				fdOK, fdWhy = false, "fd opened from something other than the path parameter"
+			}
+			return
 		}
+		// a helper that opens the lock file: every fd it hands back on success comes from syscall.Open(its path parameter)
+		h := call.Call.StaticCallee()
+		if h == nil || !c.InModule(h) || h.Blocks == nil || depth > 1 || len(call.Call.Args) == 0 || !pathOK(call.Call.Args[0]) {
+			fdOK, fdWhy = false, "fd is not the result of syscall.Open"
+			return
+		}
+		n := 0
+		for _, r := range successReturns(h) {
+			if len(r.Results) < 1 {
+				continue
+			}
+			n++
+			rv := r.Results[0]
+			vals := []ssa.Value{rv}
+			if ph, ok := rv.(*ssa.Phi); ok {
+				vals = ph.Edges
+			}
+			if u, ok := rv.(*ssa.UnOp); ok && u.Op == token.MUL {
+				if cell := cellOf(u.X); cell != nil {
+					vals = nil
+					for _, st := range cellStores(cell) {
+						vals = append(vals, st.Val)
+					}
+				}
+			}
+			for _, x := range vals {
+				checkOpenIn(x, func(pv ssa.Value) bool {
+					prm, ok := resolve(pv).(*ssa.Parameter)
+					return ok && prm.Parent() == h && paramIndex(prm) == 0
+				}, depth+1)
+			}
+		}
+		if n == 0 {
+			fdOK, fdWhy = false, "the lock-file helper has no success return"
+		}
+	}
+	checkOpen := func(v ssa.Value) {
+		checkOpenIn(v, func(pv ssa.Value) bool { _, isParam := resolve(pv).(*ssa.Parameter); return isParam }, 0)
 	}
 	if fdCell != nil {
 		for _, st := range cellStores(fdCell) {
@@ -192,47 +258,48 @@ func ruleLK1(c *Ctx) {
 	// (e) missing lock file recreated non-destructively
 	recreated, reopen := false, false
 	var why []string
-	for _, bf := range branchFacts(lp) {
-		curEnv = bf.A.Env
-		if bf.A.Kind != "bool" || !bf.Holds {
-			continue
-		}
-		call, _ := callOf(bf.A.X)
-		if call == nil {
-			continue
-		}
-		if n := calleeFullName(&call.Call); n != "os.IsNotExist" && !(n == "errors.Is") {
-			continue
-		}
-		region := reach(bf.E.To(), nil, nil)
-		for _, cc := range callsIn(lp) {
-			if !region[cc.Block()] {
+	for _, lpu := range c.unitOf(lp) {
+		for _, bf := range directFacts(lpu) {
+			if bf.A.Kind != "bool" || !bf.Holds {
 				continue
 			}
-			if cal := cc.Common().StaticCallee(); cal != nil && c.InModule(cal) {
-				// creator helper: transitive effects must be non-destructive and must create
-				creates, destroys := false, ""
-				for g := range c.F.TransitiveCallees(cal) {
-					for _, e := range c.F.Effects {
-						if e.Fn != g {
-							continue
-						}
-						if e.Class == "create-open" {
-							creates = true
-						}
-						if contentMutator(e.Class) {
-							destroys = e.Class + " at " + c.Pos(e.Call.Pos())
+			call, _ := callOf(bf.A.X)
+			if call == nil {
+				continue
+			}
+			if n := calleeFullName(&call.Call); n != "os.IsNotExist" && !(n == "errors.Is") {
+				continue
+			}
+			region := reach(bf.E.To(), nil, nil)
+			for _, cc := range callsIn(lpu) {
+				if !region[cc.Block()] {
+					continue
+				}
+				if cal := cc.Common().StaticCallee(); cal != nil && c.InModule(cal) {
+					// creator helper: transitive effects must be non-destructive and must create
+					creates, destroys := false, ""
+					for g := range c.F.TransitiveCallees(cal) {
+						for _, e := range c.F.Effects {
+							if e.Fn != g {
+								continue
+							}
+							if e.Class == "create-open" {
+								creates = true
+							}
+							if contentMutator(e.Class) {
+								destroys = e.Class + " at " + c.Pos(e.Call.Pos())
+							}
 						}
 					}
+					if creates && destroys == "" {
+						recreated = true
+					} else if destroys != "" {
+						why = append(why, "creator "+c.Name(cal)+" can destroy content: "+destroys)
+					}
 				}
-				if creates && destroys == "" {
-					recreated = true
-				} else if destroys != "" {
-					why = append(why, "creator "+c.Name(cal)+" can destroy content: "+destroys)
+				if calleeFullName(cc.Common()) == "syscall.Open" && cc.Block() != lpu.Blocks[0] {
+					reopen = true
 				}
-			}
-			if calleeFullName(cc.Common()) == "syscall.Open" && cc.Block() != lp.Blocks[0] {
-				reopen = true
 			}
 		}
 	}
@@ -536,6 +603,23 @@ func valueDerivesFromCallTo(v ssa.Value, fn *ssa.Function) bool {
 					}
 				}
 			}
+		}
+		if prm, ok := x.(*ssa.Parameter); ok && curProg != nil && d < 20 {
+			// a helper's parameter: the value comes from its callers
+			for _, cs := range curProg.callers[prm.Parent()] {
+				if i := paramIndex(prm); i < len(cs.Call.Common().Args) {
+					if walk(cs.Call.Common().Args[i], d+5) {
+						return true
+					}
+				}
+			}
+			return false
+		}
+		if fv, ok := x.(*ssa.FreeVar); ok {
+			if b := bindingOf(fv); b != nil {
+				return walk(b, d+1)
+			}
+			return false
 		}
 		if al, ok := x.(*ssa.Alloc); ok {
 			// a struct/array cell: whole-value stores and field stores
